@@ -92,6 +92,12 @@ HSTMT = [
     (r"letremaining=messages\.split_off\(blocks_fitting_in_message\(&messages\)\)", 31),
     (r"\*pending_messages=Some\(remaining\)", 33),
     (r"letmessage=Message\{payload:messages,\.\.Message::default\(\)\}", 34),
+    # ClientBehaviour::poll, task results
+    (r"returnPoll::Ready\(ToSwarm::GenerateEvent\(Event::GetQueryResponse\{query_id,data:data\.clone\(\),?\}\)\)", 40),
+    (r"self\.cid_to_queries\.entry\(cid\)\.or_default\(\)\.push\(query_id\)", 41),
+    (r"returnPoll::Ready\(ToSwarm::GenerateEvent\(Event::GetQueryError\{query_id,error:e\.into\(\),?\}\)\)", 42),
+    (r"self\.new_blocks\.extend\(blocks\)", 43),
+    (r"forstateinself\.peers\.values_mut\(\)\{state\.wantlist\.wanted_again\(&cid\);\}", 44),
 ]
 HCOND = [
     (r"ready!\(sink\.poll_flush_unpin\(cx\)\)\.is_err\(\)", 20),
@@ -100,6 +106,7 @@ HCOND = [
     (r"delay\.poll_unpin\(cx\)\.is_ready\(\)", 23),
     (r"!remaining\.is_empty\(\)", 24),
     (r"sink\.start_send_unpin\(&message\)\.is_err\(\)", 25),
+    (r"self\.wantlist\.insert\(cid\)", 26),
 ]
 
 
@@ -135,6 +142,11 @@ def parse_hbody(body):
             if rest.startswith("else"):
                 kind = 98
             items.append((kind, [c for _, cs in sub for c in cs]))
+            i = k
+        elif body.startswith("for", i) and body[i + 3].isspace():
+            j = body.index("{", i)
+            _, k = brace_block(body, j)
+            items.append((0, [hstmt_code(body[i:k])]))
             i = k
         else:
             j = body.find(";", i)
@@ -534,6 +546,48 @@ def main():
     w(f"Definition hpoll_timeout : list (N * list N) := {items_coq(tmo)}.")
     w("(* (msg pattern 0 None 1 Some 9 _, sink pattern 0 None 1 Requested 2 Ready(sink) 9 _, body) in source order *)")
     w("Definition hpoll_arms : list (N * N * list (N * list N)) := [" + "; ".join(f"({a}, {b}, {items_coq(c)})" for a, b, c in arms) + "].")
+    w("")
+
+    # ---- client.rs : ClientBehaviour::poll — what is done with a finished blockstore task
+    tm = re.search(r"if\s+let\s+Poll::Ready\(Some\(task_result\)\)\s*=\s*self\.tasks\.poll_next_unpin\(cx\)\s*\{", pm.group(1))
+    if not tm:
+        die("ClientBehaviour::poll: task block not found")
+    tbody, _ = brace_block(pm.group(1), tm.end() - 1)
+    tmm = re.search(r"match\s+task_result\s*\{", tbody)
+    if not tmm:
+        die("ClientBehaviour::poll: match task_result not found")
+    tarms_txt, tarms_end = brace_block(tbody, tmm.end() - 1)
+    tpre = re.sub(r"\s+", "", tbody[:tmm.start()])
+    tpost = re.sub(r"\s+", "", tbody[tarms_end:])
+    task_prelude = 0 if tpre == "ifletTaskResult::Get(query_id,..)=&task_result{self.query_abort_handle.remove(query_id);}" and tpost == "continue;" else 9
+    tpat = {"TaskResult::Get(query_id,_,Ok(Some(data)))": 0, "TaskResult::Get(query_id,cid,Ok(None))": 1, "TaskResult::Get(query_id,_,Err(e))": 2,
+            "TaskResult::Set(Ok(blocks))": 3, "TaskResult::Set(Err(_e))": 4, "TaskResult::Cancelled": 5}
+    tarms = []
+    i = 0
+    while True:
+        while i < len(tarms_txt) and tarms_txt[i].isspace():
+            i += 1
+        if i >= len(tarms_txt):
+            break
+        j = tarms_txt.find("=>", i)
+        if j < 0:
+            die("ClientBehaviour::poll: cannot parse task arm at: " + tarms_txt[i:i + 60])
+        pat = tpat.get(re.sub(r"\s+", "", tarms_txt[i:j]), 99)
+        j += 2
+        while tarms_txt[j].isspace():
+            j += 1
+        if tarms_txt[j] != "{":
+            die("ClientBehaviour::poll: task arm without a block")
+        inner, k = brace_block(tarms_txt, j)
+        tarms.append((pat, parse_hbody(inner)))
+        i = k
+        while i < len(tarms_txt) and (tarms_txt[i].isspace() or tarms_txt[i] == ","):
+            i += 1
+    w("(* ClientBehaviour::poll, finished blockstore task.  Pattern 0 Get(_, _, Ok(Some(data))) 1 Get(_, cid, Ok(None)) 2 Get(_, _, Err(e)) 3 Set(Ok(blocks))")
+    w("   4 Set(Err(_)) 5 Cancelled 99 anything else; statements 40 return GetQueryResponse{query_id, data} 41 cid_to_queries[cid].push(query_id)")
+    w("   42 return GetQueryError{query_id, e} 43 new_blocks.extend(blocks) 44 for every peer: wantlist.wanted_again(&cid); condition 26 self.wantlist.insert(cid) *)")
+    w(f"Definition ctask_prelude : N := {task_prelude}.  (* 0 = the abort handle of a finished Get is removed first; `continue` after the match *)")
+    w("Definition ctask_arms : list (N * list (N * list N)) := [" + "; ".join(f"({a}, {items_coq(c)})" for a, c in tarms) + "].")
     w("")
 
     # ---- server.rs : ServerConnectionHandler::poll_outgoing — the arms of the match on (pending_outgoing_messages, sink)
